@@ -52,6 +52,11 @@ let handle = function
     let req (i : BinNums.coq_N) : BinNums.coq_N = n_of_int (1 + ((int_of_n i) * 7919) mod 2039) in
     let (mo, oc) = PartialWriter.pw_run (n_of_int 11) kk lit_h req d in
     if oc = Emitter.EClean && mo = spec then hex_of_bytes spec else "MODEL-SPLIT emit_lit machine /= specification"
+  | ["rewrite"; fmt; tag; indet; body] ->
+    (* a packet read behind a header of this format (0 current, 1 legacy; indeterminate length or not) and written again *)
+    let h = { Framing.hf = (if fmt = "1" then Framing.HOld else Framing.HNew); Framing.htag = n_of_int (int_of_string tag);
+              Framing.hlen = (if indet = "1" then Framing.PIndet else Framing.PFixed (n_of_int 0)) } in
+    hex_of_bytes (Rewrite.rewrite h (bytes_of_hex body))
   | ["litgen"; fixed; k; data; reqs] ->
     (* the two literal writers as machines, read with the harness's own request sizes (cycled) *)
     let d = bytes_of_hex data in
